@@ -1,4 +1,5 @@
 import Gleece.Driver.Router
+import Gleece.Driver.Dialect
 open Lean
 namespace Gleece.Driver
 open Gleece.IR
@@ -11,6 +12,7 @@ def irHandler : Handler := fun prop input impl => do
     | "C04" => pure (checkC04 d implJ)
     | "C06" => pure (checkC06 d implJ)
     | "C02" | "C03" | "C05" | "C12" => pure (checkRouter prop d implJ)
+    | "C11" => pure (checkC11 d implJ)
     | p => throw s!"mode ir: no check for property {p}"
   let tag (pre : String) (f : String) :=
     if f.length > 4 && f.get 0 = 'C' && (f.splitOn "-F").length > 1 && (f.splitOn ":").length > 1 && ((f.splitOn ":")[0]!).length ≤ 8
